@@ -16,9 +16,9 @@ CLAIMS = {
         text="The per-column merge comparator ArrayValues::{is_null, compare, eq, eq_to_previous, get_value, eq_to_single_row_value} is proved to implement exactly the requested ordering rule for every SortOptions combination, every null threshold and an arbitrary inner order: NULL placement by nulls_first independent of direction, values reversed iff descending, eq <=> Equal, antisymmetric, transitive. Bounded stand-in for the loser tree (real is_gt / init_loser_tree / update_loser_tree on a forged stream, k <= 4): permutation + minimum at the root. Batch building, spilling, TopK are not within reach and not claimed.",
         note="Trusted: Kani/CBMC; inner CursorValues modelled by a symbolic order on 4 slots; NULL layout (prefix/suffix by null_threshold) as established by ArrayValues::new."),
     "C09": dict(
-        category="proof", technique="contract-based deductive verification (Verus/SMT on the extracted real function)",
-        text="ROWS-frame computation (WindowFrameContext::calculate_range_rows) proved, for every u64 offset, every frame shape and every idx < length, to return exactly the mathematical frame {j | 0<=j<length, idx-p<=j<=idx+f} with no arithmetic overflow. Also under contract: is_end_bound_safe_for_groups (overflow-free for every u64 offset; only final when exactly n+1 groups remain). RANGE frames, the GROUPS index computation, evaluators and executors are outside the reach of contracts and not claimed.",
-        note="Trusted: Verus+Z3; usize is 64 bit; type model of ScalarValue/WindowFrameBound limited to the variants the function matches; rewrites R9/R11 of DESIGN.md 2.2; precondition idx < length from call sites."),
+        category="proof", technique="contract-based deductive verification (Verus/SMT on the extracted real functions; non-linear lemmas for NTILE, closure contracts for the search kernels)",
+        text="ROWS-frame computation (WindowFrameContext::calculate_range_rows) proved, for every u64 offset, every frame shape and every idx < length, to return exactly the mathematical frame {j | 0<=j<length, idx-p<=j<=idx+f} with no arithmetic overflow. Also under contract: is_end_bound_safe_for_groups (overflow-free for every u64 offset; only final when exactly n+1 groups remain); the RANGE/GROUPS search kernels find_bisect_point and search_in_slice (partition point / first failing row of an arbitrary comparison closure on [low, high), no overflow); and the NTILE evaluator (NtileEvaluator::evaluate_all): every row gets exactly the bucket of the SQL definition - buckets 1..=n, sizes as equal as possible, the larger ones first - for every n >= 1 and every row count. The frame-bound search around the kernels, the GROUPS index computation, the other evaluators, sliding retraction and the executors are outside the reach of contracts and not claimed.",
+        note="Trusted: Verus+Z3; usize is 64 bit; type model of ScalarValue/WindowFrameBound limited to the variants the function matches; get_row_at_idx and the Arrow column constructor behind assumed contracts; rewrites R9/R11/R13 and ghost parameter G1 (the predicate the closure decides); preconditions idx < length, n >= 1 (checked at construction), num_rows <= isize::MAX, predicate prefix-closed on [low, high) for the bisection."),
     "C10": dict(
         category="proof", technique="contract-based deductive verification (Verus/SMT on extracted real functions; comparison and Arrow access behind assumed contracts)",
         text="Routing decision of range repartitioning: range_partition_id returns the number of split points <= row (binary search proved against a counting spec under an abstract total pre-order), and partition_range_indices puts every row of a batch exactly once into the bucket of its partition id (view invariant over all buckets). RangeExpr::evaluate is checked to call the same contracted function with its own split points. Hash routing is proved under C11. Channels, spilling, drop handling and order-preserving merge (schedules, I/O) are not within reach and are not claimed.",
